@@ -921,3 +921,367 @@ def ff_comp(ctx):
         ctx.ob('FF-COMP', ok, None, "compensated '%s' = computed - error" % c, f=f, key='comp-' + c,
                why="the compensated '%s' is not the computed value minus its estimated error "
                    "(sign, radius of principal_radii at the nominal point, or RAD_TO_DEG)" % c)
+
+
+# ----------------------------------------------------------------------- RESULT-FORM
+def result_form(ctx):
+    """What the filters report: evaluated symbolically for a generic epoch with a 9 + 3 + 2 state
+    layout (INS, gyro model with 3 states, accelerometer model with 2)."""
+    ctx.rule('RESULT-FORM', 'reported tables of both filters: trajectory sd = sqrt(diag(T P_ins T^T)), '
+             'sensor sd = sqrt of the diagonal of the own covariance block, sensor estimates = own '
+             'block of the state vector, error estimate = T x_ins; labelled with the error columns / '
+             'the states of the owning model')
+    from ..expr import SymEval, SArray, Rec, Obj, Opaque, Unsupported, RuntimeFailure
+    from ..nf import Alg, Rat
+    repo = ctx.repo
+    err_cols = list(repo.const('util.TRAJECTORY_ERROR_COLS'))
+    traj_cols = list(repo.const('util.TRAJECTORY_COLS'))
+    NI, NG, NA = 9, 3, 2
+    N = NI + NG + NA
+    n_ob = 0
+    for fq, has_x in (('filters._compute_sd', False),
+                      ('filters._compute_feedforward_result', True)):
+        f = repo.function(fq)
+        ctx.touch(f)
+        A = Alg()
+        tables = []
+
+        class H:
+            def call(self, ev, q, node, args, kwargs, env):
+                if isinstance(node.func, ast.Attribute) and \
+                        node.func.attr == 'transform_to_output':
+                    return SArray((NI, NI), {(i, j): A.sym('T_%d_%d' % (i, j))
+                                             for i in range(NI) for j in range(NI)}, None, True)
+                if q == 'pandas.DataFrame':
+                    data = args[0] if args else kwargs.get('data')
+                    cols = kwargs.get('columns', args[2] if len(args) > 2 else None)
+                    if isinstance(data, SArray) and isinstance(cols, (list, tuple)) and \
+                            len(data.shape) == 1:
+                        tables.append((list(cols), data, node))
+                        if len(cols) == data.shape[0]:
+                            return Rec({c: data.get((i,)) for i, c in enumerate(cols)}, 'frame')
+                        return Opaque('frame')
+                    raise Unsupported('DataFrame construction not recognised')
+                return NotImplemented
+        ev = SymEval(repo, A, hooks=H())
+        ev.stacked = True
+        P = SArray((N, N), {(i, j): A.sym('P_%d_%d' % (min(i, j), max(i, j)))
+                            for i in range(N) for j in range(N)}, None, True)
+        x = SArray((N,), {(i,): A.sym('x_%d' % i) for i in range(N)}, None, True)
+        nom = Rec({c: A.sym(c + '_nom') for c in traj_cols}, 'frame')
+        com = Rec({c: A.sym(c) for c in traj_cols}, 'frame')
+        em = Obj(repo.klass('error_model.InsErrorModel'))
+        em.attrs['n_states'] = NI
+        gm, am = Obj(repo.klass('inertial_sensor.EstimationModel')), \
+            Obj(repo.klass('inertial_sensor.EstimationModel'))
+        gm.attrs.update(n_states=NG, states=['g0', 'g1', 'g2'])
+        am.attrs.update(n_states=NA, states=['a0', 'a1'])
+        by_name = {'x': x, 'P': P, 'trajectory_nominal': nom, 'trajectory': com,
+                   'error_model': em, 'gyro_model': gm, 'accel_model': am}
+        ctx.need(all(p_ in by_name for p_ in f.params),
+                 '%s: parameters %s not recognised' % (f.name, f.params))
+        try:
+            ev.call_function(f, [by_name[p_] for p_ in f.params])
+        except RuntimeFailure as e:
+            ctx.ob('RESULT-FORM', False, None, '%s evaluates' % f.name, f=f,
+                   node=getattr(ev, 'last_stmt', (None, None))[1], key='raises-' + f.name,
+                   why='%s raises for a 9 + 3 + 2 state layout: %s' % (f.name, e))
+            n_ob += 1
+            continue
+        except Unsupported as e:
+            raise AnalysisError('%s not analysable: %s' % (f.name, e))
+        T = lambda i, j: A.sym('T_%d_%d' % (i, j))
+        Pa = lambda i, j: A.sym('P_%d_%d' % (min(i, j), max(i, j)))
+        want = {}
+        tp = []
+        for k in range(NI):
+            s_ = A.const(0)
+            for i in range(NI):
+                for j in range(NI):
+                    s_ = A.add(s_, A.mul(A.mul(T(k, i), Pa(i, j)), T(k, j)))
+            tp.append(s_)
+        want['traj_sd'] = (err_cols, tp, True)
+        want['gyro_sd'] = (['g0', 'g1', 'g2'], [Pa(NI + k, NI + k) for k in range(NG)], True)
+        want['accel_sd'] = (['a0', 'a1'], [Pa(NI + NG + k, NI + NG + k) for k in range(NA)], True)
+        if has_x:
+            tx = []
+            for k in range(NI):
+                s_ = A.const(0)
+                for i in range(NI):
+                    s_ = A.add(s_, A.mul(T(k, i), A.sym('x_%d' % i)))
+                tx.append(s_)
+            want['error'] = (err_cols, tx, False)
+            want['gyro'] = (['g0', 'g1', 'g2'], [A.sym('x_%d' % (NI + k)) for k in range(NG)], False)
+            want['accel'] = (['a0', 'a1'], [A.sym('x_%d' % (NI + NG + k)) for k in range(NA)],
+                             False)
+        desc = {'traj_sd': 'trajectory sd = sqrt(diag(T P_ins T^T))',
+                'gyro_sd': 'gyro sd = sqrt(diag(P[gyro block, gyro block]))',
+                'accel_sd': 'accel sd = sqrt(diag(P[accel block, accel block]))',
+                'error': 'output-space error estimate = T x_ins',
+                'gyro': 'gyro estimates = x[gyro block]', 'accel': 'accel estimates = x[accel block]'}
+        for key, (cols, vals, is_sd) in want.items():
+            # the table with these labels whose kind (sd / estimate) matches
+            cand = [t for t in tables if t[0] == cols]
+            hit, why = None, 'no table labelled %s is built' % cols
+            for cols_, data, node in cand:
+                if data.shape[0] != len(vals):
+                    why = 'the table labelled %s has %d columns of data' % (cols, data.shape[0])
+                    continue
+                if is_sd:
+                    okv = all(A.eq(A.mul(data.get((k,)), data.get((k,))), vals[k]) and
+                              not A.eq(data.get((k,)), vals[k]) for k in range(len(vals)))
+                else:
+                    okv = all(A.eq(data.get((k,)), vals[k]) for k in range(len(vals)))
+                if okv:
+                    hit = node
+                    break
+                lin = all('P_' not in A.key(data.get((k,))) for k in range(len(vals)))
+                if lin != is_sd or len(cand) == 1:
+                    # same kind (covariance-based or state-based), wrong value
+                    why = 'the table labelled %s holds %s' % (cols, A.key(data.get((0,)))[:110])
+            n_ob += 1
+            ctx.ob('RESULT-FORM', hit is not None, None, '%s: %s' % (f.name, desc[key]), f=f,
+                   node=hit or f.node, key='%s-%s' % (f.name, key),
+                   why='%s: %s does not hold for the reported table: %s' % (f.name, desc[key], why))
+    ctx.floor('RESULT-FORM', n_ob, 9, 'reported tables')
+
+
+# ----------------------------------------------------------------------- RES-COLLECT
+def res_collect(ctx, which=None):
+    """What is recorded per epoch reaches the result under the right name: roles are followed by
+    data flow (what a list is appended with, what a helper's parameter is called, what a helper
+    returns at which position), not by the names of the filter's locals."""
+    from . import sched
+    from ..flow import strip_array_wrappers
+    ctx.rule('RES-COLLECT', 'both filters: every result list is appended with the quantity of its '
+             'role (epoch time at the start of the iteration, the state / covariance the Kalman '
+             'update returns, the estimates of the gyro / accelerometer model); the helper that '
+             'assembles the result receives them under its matching parameters, with both '
+             'trajectories selected at the recorded times; every key of the returned Bunch is bound '
+             'to the value the helper returns under that name')
+    repo = ctx.repo
+    n_ob = 0
+    for M in sched._models(ctx, which or (sched.FB, sched.FF)):
+        f = M.f
+        res = M.res
+        fb = M.kind == 'feedback'
+        # ---- roles of the caller's variables
+        role = {}
+        for n in ast.walk(f.node):
+            if isinstance(n, ast.Assign) and isinstance(n.value, ast.Call) and \
+                    res(n.value.func) == 'pyins.kalman.correct' and \
+                    isinstance(n.targets[0], ast.Tuple) and len(n.targets[0].elts) == 3:
+                for el, r_ in zip(n.targets[0].elts, ('x', 'P', 'innovation')):
+                    if isinstance(el, ast.Name):
+                        role[el.id] = r_
+        for p_ in f.params:
+            if p_ in ('gyro_model', 'accel_model', 'error_model', 'trajectory',
+                      'trajectory_nominal'):
+                role[p_] = p_
+        integrators = {n.targets[0].id for n in ast.walk(f.node)
+                       if isinstance(n, ast.Assign) and isinstance(n.targets[0], ast.Name) and
+                       isinstance(n.value, ast.Call) and
+                       (res(n.value.func) or '').endswith('strapdown.Integrator')}
+        ctx.need('x' in role.values() and 'P' in role.values(),
+                 '%s: kalman.correct call with (x, P, innovation) targets not found' % f.name)
+        # ---- result lists and what they are appended with
+        lists = {}
+        for st in M.pre:
+            if isinstance(st, ast.Assign) and isinstance(st.value, ast.List) and \
+                    not st.value.elts and isinstance(st.targets[0], ast.Name):
+                lists[st.targets[0].id] = []
+        for st in M.loop.body:
+            if isinstance(st, ast.Expr) and isinstance(st.value, ast.Call) and \
+                    isinstance(st.value.func, ast.Attribute) and st.value.func.attr == 'append' \
+                    and isinstance(st.value.func.value, ast.Name) and \
+                    st.value.func.value.id in lists and len(st.value.args) == 1:
+                lists[st.value.func.value.id].append((st.value.args[0], st))
+
+        def list_role(name):
+            """role of a result list from what is appended to it"""
+            out = set()
+            for e, st in lists.get(name, ()):
+                if isinstance(e, ast.Name) and e.id in role:
+                    out.add(role[e.id])
+                elif isinstance(e, ast.Call) and isinstance(e.func, ast.Attribute) and \
+                        e.func.attr == 'get_estimates' and isinstance(e.func.value, ast.Name) and \
+                        role.get(e.func.value.id) in ('gyro_model', 'accel_model'):
+                    out.add(role[e.func.value.id][:-6] + '-estimates')
+                else:
+                    t = norm_text(e)
+                    dfn = [s for s in M.loop.body if isinstance(s, ast.Assign) and
+                           isinstance(e, ast.Name) and isinstance(s.targets[0], ast.Name) and
+                           s.targets[0].id == e.id and M.loop.body.index(s) < M.loop.body.index(st)]
+                    is_epoch = False
+                    if dfn:
+                        dv = dfn[-1].value
+                        t = norm_text(dv)
+                        if fb:
+                            is_epoch = isinstance(dv, ast.Call) and isinstance(dv.func, ast.Attribute) \
+                                and dv.func.attr == 'get_time' and not dv.args and \
+                                isinstance(dv.func.value, ast.Name) and \
+                                dv.func.value.id in integrators
+                        else:
+                            is_epoch = isinstance(dv, ast.Subscript) and \
+                                norm_text(dv.slice) == M.c and \
+                                Closure(f).text(dv.value, dfn[-1]) in (
+                                    'trajectory.index', 'trajectory_nominal.index')
+                    if is_epoch:
+                        # for the feedback filter nothing may advance the integrator in between
+                        d = [s for s in M.loop.body if isinstance(s, ast.Assign) and
+                             isinstance(e, ast.Name) and isinstance(s.targets[0], ast.Name) and
+                             s.targets[0].id == e.id]
+                        adv = [s for s in M.loop.body if any(
+                            isinstance(c, ast.Call) and isinstance(c.func, ast.Attribute) and
+                            c.func.attr == 'integrate' for c in ast.walk(s))]
+                        pos = M.loop.body.index
+                        if fb and d and adv and not (pos(d[0]) < pos(st) < pos(adv[0])):
+                            out.add('stale-time')
+                        else:
+                            out.add('time')
+                    else:
+                        out.add('`%s`' % t[:50])
+            return out
+        lroles = {k: list_role(k) for k, v in lists.items() if v}
+        want_lists = {'time', 'P'} | ({'gyro-estimates', 'accel-estimates'} if fb else {'x'})
+        have = {}
+        for k, rs in sorted(lroles.items()):
+            n_ob += 1
+            ok = len(rs) == 1 and next(iter(rs)) in want_lists and next(iter(rs)) not in have
+            ctx.ob('RES-COLLECT', ok, None, "%s: list '%s' records %s" % (M.kind, k, sorted(rs)),
+                   f=f, node=lists[k][0][1], key='%s-list-%s' % (M.kind, sorted(rs)[0]),
+                   why="%s filter: result list '%s' is appended with %s; expected exactly one "
+                       'list for each of %s' % (M.kind, k, sorted(rs), sorted(want_lists)))
+            if ok:
+                have[next(iter(rs))] = k
+        n_ob += 1
+        ctx.ob('RES-COLLECT', set(have) == want_lists, None, '%s: lists for %s'
+               % (M.kind, sorted(want_lists)), f=f, node=M.loop, key='%s-lists' % M.kind,
+               why='%s filter: no result list records %s' % (M.kind, sorted(want_lists - set(have))))
+        if set(have) != want_lists:
+            continue
+        # ---- the helper call
+        hname = '_compute_sd' if fb else '_compute_feedforward_result'
+        calls = [(n, st) for st in M.post for n in ast.walk(st)
+                 if isinstance(n, ast.Call) and (res(n.func) or '').endswith('filters.' + hname)]
+        ctx.need(len(calls) == 1, '%s: call of %s after the loop not found' % (f.name, hname))
+        call, cst = calls[0]
+        h = repo.function('filters.' + hname)
+        ctx.touch(h)
+        clo = Closure(f)
+
+        def name_defs(nm):
+            return [n.value for n in ast.walk(f.node) if isinstance(n, ast.Assign) and
+                    len(n.targets) == 1 and isinstance(n.targets[0], ast.Name) and
+                    n.targets[0].id == nm]
+
+        post_before = M.post[:M.post.index(cst)] if cst in M.post else []
+
+        def arg_role(e, depth=0, seen=()):
+            e = strip_array_wrappers(e)
+            if isinstance(e, ast.Name) and e.id not in seen:
+                # re-bound between the loop and the call (`T = T.loc[times]`, `L = asarray(L)`)
+                pd_ = [s_ for s_ in post_before if isinstance(s_, ast.Assign) and
+                       len(s_.targets) == 1 and isinstance(s_.targets[0], ast.Name) and
+                       s_.targets[0].id == e.id]
+                if pd_ and depth < 4:
+                    return arg_role(pd_[-1].value, depth + 1, seen + (e.id,))
+                if role.get(e.id) in ('trajectory', 'trajectory_nominal'):
+                    return '%s (all rows, not selected at the recorded times)' % role[e.id]
+            if isinstance(e, ast.Name):
+                if e.id in lroles:
+                    # `L = np.asarray(L)` after the loop keeps the role of the list
+                    return next(iter(lroles[e.id])) if len(lroles[e.id]) == 1 else \
+                        'a mixture %s' % sorted(lroles[e.id])
+                if e.id in role:
+                    return role[e.id]
+                ds = name_defs(e.id)
+                if len(ds) == 1 and depth < 3:
+                    d_ = ds[0]
+                    if isinstance(d_, ast.Call) and (res(d_.func) or '').endswith('InsErrorModel'):
+                        return 'error_model'
+                    return arg_role(d_, depth + 1)
+                return '`%s`' % e.id
+            # <table>.loc[<time list>]
+            if isinstance(e, ast.Subscript) and isinstance(e.value, ast.Attribute) and \
+                    e.value.attr == 'loc':
+                base = norm_text(e.value.value)
+                sel = e.slice
+                sel_r = arg_role(sel, depth + 1, ()) if isinstance(sel, ast.Name) \
+                    else '`%s`' % norm_text(sel)
+                if sel_r != 'time':
+                    return '%s selected at %s' % (base, sel_r)
+                bv = e.value.value
+                if isinstance(bv, ast.Attribute) and bv.attr == 'trajectory' and \
+                        isinstance(bv.value, ast.Name) and bv.value.id in integrators:
+                    return 'trajectory'
+                return role.get(base, '`%s`' % base)
+            return '`%s`' % norm_text(e)[:50]
+        want_arg = {'x': 'x', 'P': 'P', 'trajectory': 'trajectory',
+                    'trajectory_nominal': 'trajectory_nominal', 'error_model': 'error_model',
+                    'gyro_model': 'gyro_model', 'accel_model': 'accel_model'}
+        bound = {}
+        for i, a in enumerate(call.args):
+            if i < len(h.params):
+                bound[h.params[i]] = a
+        for kw in call.keywords:
+            if kw.arg:
+                bound[kw.arg] = kw.value
+        for p_ in h.params:
+            ctx.need(p_ in want_arg and p_ in bound, '%s: parameter %s of %s' % (f.name, p_, hname))
+            got = arg_role(bound[p_])
+            n_ob += 1
+            ctx.ob('RES-COLLECT', got == want_arg[p_], None,
+                   '%s: %s(%s=...) receives the recorded %s' % (M.kind, hname, p_, want_arg[p_]),
+                   f=f, node=bound[p_], key='%s-arg-%s' % (M.kind, p_),
+                   why='%s filter: parameter `%s` of %s receives %s' % (M.kind, p_, hname, got))
+        # ---- names returned by the helper -> keys of the Bunch
+        hret = [s for s in ast.walk(h.node) if isinstance(s, ast.Return)]
+        ctx.need(len(hret) == 1 and isinstance(hret[0].value, ast.Tuple) and
+                 all(isinstance(e, ast.Name) for e in hret[0].value.elts),
+                 '%s: return of %s is not a tuple of names' % (f.name, hname))
+        rnames = [e.id for e in hret[0].value.elts]
+        ctx.need(isinstance(cst, ast.Assign) and isinstance(cst.targets[0], ast.Tuple) and
+                 len(cst.targets[0].elts) == len(rnames) and
+                 all(isinstance(e, ast.Name) for e in cst.targets[0].elts),
+                 '%s: result of %s is not unpacked into %d names' % (f.name, hname, len(rnames)))
+        local_of = {e.id: r_ for e, r_ in zip(cst.targets[0].elts, rnames)}
+        rets = [s for s in ast.walk(f.node) if isinstance(s, ast.Return)]
+        ctx.need(len(rets) == 1 and isinstance(rets[0].value, ast.Call) and
+                 (res(rets[0].value.func) or '').endswith('Bunch'),
+                 '%s: result is not a util.Bunch(...)' % f.name)
+        for kw in rets[0].value.keywords:
+            if kw.arg in rnames:
+                v = kw.value
+                got = local_of.get(v.id) if isinstance(v, ast.Name) else None
+                n_ob += 1
+                ctx.ob('RES-COLLECT', got == kw.arg, None,
+                       "%s: result key '%s' is what %s returns as '%s'" % (M.kind, kw.arg, hname,
+                                                                         kw.arg), f=f, node=kw.value,
+                       key='%s-key-%s' % (M.kind, kw.arg),
+                       why="%s filter: result key '%s' is bound to `%s`, i.e. to %s"
+                           % (M.kind, kw.arg, norm_text(v)[:50],
+                              ("what %s returns as '%s'" % (hname, got)) if got else
+                              'something the helper does not return under that name'))
+            elif fb and kw.arg in ('gyro', 'accel'):
+                v = kw.value
+                ok, got = False, norm_text(v)[:60]
+                if isinstance(v, ast.Call) and (res(v.func) or '') == 'pandas.DataFrame' and v.args:
+                    d_ = arg_role(v.args[0])
+                    ix = [k.value for k in v.keywords if k.arg == 'index'] + list(v.args[1:2])
+                    i_ = arg_role(ix[0]) if ix else None
+                    got = 'a table of %s indexed by %s' % (d_, i_)
+                    ok = d_ == kw.arg + '-estimates' and i_ == 'time'
+                n_ob += 1
+                ctx.ob('RES-COLLECT', ok, None, "feedback: result key '%s' = recorded %s estimates "
+                       'indexed by the recorded times' % (kw.arg, kw.arg), f=f, node=v,
+                       key='feedback-key-' + kw.arg,
+                       why="feedback filter: result key '%s' is %s" % (kw.arg, got))
+            elif fb and kw.arg == 'trajectory':
+                n_ob += 1
+                ctx.ob('RES-COLLECT', norm_text(kw.value) == 'integrator.trajectory', None,
+                       "feedback: result key 'trajectory' is the integrator's trajectory", f=f,
+                       node=kw.value, key='feedback-key-trajectory',
+                       why="feedback filter: result key 'trajectory' is `%s`"
+                           % norm_text(kw.value)[:60])
+    ctx.floor('RES-COLLECT', n_ob, 15 * len(which or (1, 2)), 'result roles')
